@@ -45,6 +45,7 @@ namespace bxdecay0 {
 
   void Dy164low(i_random & prng_, event & event_, const int levelkev_)
   {
+    BXDECAY0_VERIF_SCOPE("scheme:Dy164low", levelkev_);
     // Subroutine describes the deexcitation process in Dy164 nucleus
     // after 2b-decay of Er164 to ground and excited 0+ and 2+ levels
     // of Dy164 (NNDC on 04.02.2018, NDS 93(2001)243).
